@@ -40,6 +40,7 @@ def cases():
     mprops = {}
     try:
         sys.path.insert(0, os.path.join(HERE, 'mutants'))
+        sys.path.insert(0, os.path.join(HERE, 'bin'))
         import specs
         mprops = {s['name']: s['props'] for s in specs.SPECS}
     except Exception:
@@ -47,6 +48,12 @@ def cases():
     for p in sorted(glob.glob(os.path.join(HERE, 'mutants', '*.diff'))):
         name = os.path.basename(p)[:-5]
         out.append(('mutant-' + name, p, mprops.get(name) or [name.split('-')[0]]))
+    # behaviour-preserving refactorings: every check must stay silent (exit 0)
+    import registry_props
+    for d in sorted(glob.glob(os.path.join(HERE, 'benign', '*'))):
+        p = os.path.join(d, 'patch.diff')
+        if os.path.exists(p):
+            out.append(('benign-' + os.path.basename(d), p, registry_props.ALL))
     return out
 
 
@@ -54,7 +61,7 @@ def worker(args):
     idx, todo, keep = args
     scratch = tempfile.mkdtemp(prefix='walrus-selftest-')
     repo = os.path.join(scratch, 'repo')
-    subprocess.check_call(['rsync', '-a', '--exclude', 'target', '--exclude', '.git', '/repo/', repo + '/'])
+    subprocess.check_call(['rsync', '-a', '--exclude', 'target', '--exclude', '.git', os.environ.get('VERIF_REPO', '/repo').rstrip('/') + '/', repo + '/'])
     subprocess.check_call(['git', 'init', '-q'], cwd=repo)
     subprocess.check_call('git add -A && git -c user.name=x -c user.email=x@x commit -qm base', shell=True, cwd=repo)
     env = dict(os.environ, VERIF_REPO=repo, VERIF_EVIDENCE_DIR=os.path.join(scratch, 'evidence'))
@@ -69,6 +76,15 @@ def worker(args):
             for prop in props:
                 r = subprocess.run([os.path.join(HERE, 'check'), prop], cwd=HERE, env=env, capture_output=True, text=True)
                 keys = [l.split('key=')[1].strip() for l in r.stdout.splitlines() if 'key=' in l]
+                if name.startswith('benign-'):
+                    if r.returncode == 0 and 'VIOLATION' not in r.stdout:
+                        rows.append((name, prop, 'SILENT', 0))
+                    elif r.returncode == 1:
+                        rows.append((name, prop, 'FALSE-ALARM ' + '; '.join(keys[:3])[:200], 1))
+                    else:
+                        rows.append((name, prop, 'ANALYSIS-ERROR (exit %d): ' % r.returncode
+                                     + ' | '.join(l for l in r.stdout.splitlines() if 'ANALYSIS' in l)[:200], 1))
+                    continue
                 if r.returncode == 1 and 'VIOLATION' in r.stdout:
                     rows.append((name, prop, 'DETECTED ' + '; '.join(keys[:2])[:150], 0))
                 elif r.returncode == 2:
@@ -86,11 +102,22 @@ def main():
     args = sys.argv[1:]
     if '--only' in args:
         only = args[args.index('--only') + 1:]
+    only = [o for o in only if o != '--keep']
     jobs = 6
     if '-j' in args:
         jobs = int(args[args.index('-j') + 1])
         only = [o for o in only if o not in ('-j', str(jobs))]
+    prop = None
+    if '--prop' in args:
+        prop = args[args.index('--prop') + 1]
+        only = [o for o in only if o not in ('--prop', prop)]
+    jout = None
+    if '--json' in args:
+        jout = args[args.index('--json') + 1]
+        only = [o for o in only if o not in ('--json', jout)]
     todo = [c for c in cases() if not only or any(o in c[0] for o in only)]
+    if prop:
+        todo = [(n, p, [prop]) for n, p, props in todo if prop in props and not n.startswith('benign-')]
     jobs = max(1, min(jobs, len(todo)))
     from multiprocessing.pool import ThreadPool
     chunks = [(k, todo[k::jobs], '--keep' in args) for k in range(jobs)]
@@ -103,6 +130,8 @@ def main():
     w = max(len(r[0]) for r in rows) if rows else 10
     for n, p, s in rows:
         print('%-*s %-4s %s' % (w, n, p, s))
+    if jout:
+        json.dump([{'case': n, 'property': p, 'result': r} for n, p, r in rows], open(jout, 'w'), indent=1)
     print('selftest: %d case/property pairs, %d not as expected' % (len(rows), bad))
     sys.exit(1 if bad else 0)
 
